@@ -63,7 +63,15 @@ class s_int(metaclass=_IntMeta):
             return x.to_int(*a)
         return _b.int(x, *a)
 
-    from_bytes = _b.int.from_bytes
+    @staticmethod
+    def from_bytes(b, byteorder="big", *, signed=False):
+        if _b.isinstance(b, SymBytes):
+            items = _b.list(b.items)
+            if _any_sym(items):
+                from .models import compose_le
+                return compose_le(items if byteorder == "little" else items[::-1], signed)
+            b = _b.bytes(items)
+        return _b.int.from_bytes(b, byteorder, signed=signed)
 
 
 def s_isinstance(x, t):
